@@ -21,7 +21,7 @@ ASSUMPTIONS = ["model decoder and model scalar multiplication (vf/model/bls12381
                "condition; everything else is a round trip through the library itself"]
 ENGINE = "hypothesis"
 TECHNIQUE = ("property-based testing (Hypothesis): sign/verify and prove/verify round trips through the public API with an independent-model side condition on the public key")
-_REQ = ["rt:basic", "rt:aug", "rt:pop", "pop", "reject:int", "reject:type", "keygen", "rt:sk=boundary",
+_REQ = ["rt:basic", "rt:aug", "rt:pop", "pop", "reject:int", "reject:type", "reject:numeric_twin_after_use", "keygen", "rt:sk=boundary",
         "rt:sk>=200b", "rt:msg=empty", "rt:msg=56-64", "rt:msg=65-1024"]
 REQUIRED_LABELS = {"quick": _REQ, "thorough": _REQ + ["rt:msg=>1KiB"]}
 
@@ -81,6 +81,37 @@ def _bad_value(case):
     return sc.BAD_SK_OBJECTS[case["bad_obj"]]
 
 
+def _numeric_twin(kind, k):
+    import decimal
+    import fractions
+    return {"float": float(k), "fraction": fractions.Fraction(k), "decimal": decimal.Decimal(k),
+            "complex": complex(k, 0)}[kind]
+
+
+def o_reject_after_use(ctx, case):
+    """A value that merely COMPARES equal to a valid key (1.0, Fraction(5), Decimal(2**60)) is still not an
+    integer: it must be refused even right after the integer itself was accepted by the same entry point."""
+    from eth_utils import ValidationError
+    suite, entry, k, kind = case["suite"], case["entry"], case["k"], case["twin"]
+    if entry == "PopProve" and suite != "pop":
+        return
+    ctx.begin("reject_after_use", case)
+    S = sc.lib_suite(suite)
+    fn = {"SkToPk": lambda x: S.SkToPk(x), "Sign": lambda x: S.Sign(x, b"message"),
+          "PopProve": lambda x: S.PopProve(x)}[entry]
+    fn(k)                                            # the honest call first
+    bad = _numeric_twin(kind, k)
+    try:
+        out = fn(bad)
+    except ValidationError:
+        out = ValidationError
+    ctx.check(out is ValidationError, "reject_after_use", "non_integer_accepted", case,
+              f"{S.__name__}.{entry}({bad!r}) returned {out!r} after {entry}({k}) had been called")
+    ctx.label("reject:numeric_twin_after_use")
+    ctx.nontrivial(("t", suite, entry, k, kind))
+    ctx.sample(case, f"twin:{kind}")
+
+
 def o_reject(ctx, case):
     from eth_utils import ValidationError
     suite, entry = case["suite"], case["entry"]
@@ -118,7 +149,8 @@ def o_keygen(ctx, case):
     ctx.sample(case, "keygen")
 
 
-ORACLES = {"roundtrip": o_roundtrip, "pop": o_pop, "reject": o_reject, "keygen": o_keygen}
+ORACLES = {"roundtrip": o_roundtrip, "pop": o_pop, "reject": o_reject, "reject_after_use": o_reject_after_use,
+           "keygen": o_keygen}
 
 
 def s_rt(big):
@@ -162,6 +194,11 @@ def t_reject(ctx):
                 o_reject(ctx, {"suite": suite, "entry": entry, "bad_int": v})
             for i in range(len(sc.BAD_SK_OBJECTS)):
                 o_reject(ctx, {"suite": suite, "entry": entry, "bad_obj": i})
+    for suite in sc.SUITES:
+        for entry in ("SkToPk", "Sign", "PopProve"):
+            for kind in ("float", "fraction", "decimal", "complex"):
+                for k in ((1, 5) if entry != "SkToPk" else (1, 2, 5, 1 << 52, 12345)):
+                    o_reject_after_use(ctx, {"suite": suite, "entry": entry, "k": k, "twin": kind})
     bad = st.one_of(st.integers(-(1 << 300), 0), st.integers(R, 1 << 300),
                     st.integers(0, 1 << 40).map(lambda k: R + k), st.integers(0, 1 << 40).map(lambda k: -k))
     strat = st.fixed_dictionaries({"suite": sc.s_suite(), "entry": st.sampled_from(["SkToPk", "Sign", "PopProve"]),
